@@ -57,14 +57,15 @@ SMALL = [
     {"kind": "pool", "pool": "functor", "workers": 2, "quota": None, "wq": "1.0", "rq": None, "calls": [_c(1)], "begin_delay": 30, "ready_at": 0},
     {"kind": "pool", "pool": "factory", "workers": 1, "quota": 1, "wq": "1.0", "rq": None, "calls": [_c(2)], "repl_begin_delay": 10, "ready_mid": [0, 1],
      "ready_thread": {"start": 10, "gap": 2, "reps": 6}},
+    {"kind": "pool", "pool": "functor", "workers": 3, "quota": None, "wq": 1, "rq": None, "calls": [_c(0)], "begin_delay": 300},
 ]
 
 
 def enumerations(tier):
     b = 2 if tier == "thorough" else 1
-    parts = [("pool-level-all-schedules-<=1-deviations-4-small-configs", PC.sweep(SMALL, 1), True)]
+    parts = [("pool-level-all-schedules-<=1-deviations-5-small-configs", PC.sweep(SMALL, 1), True)]
     if b == 2:
-        parts.append(("pool-level-schedules-<=2-deviations-4-small-configs-second-deviation-at-every-3rd-step", PC.sweep(SMALL, 2, thin=3), False))
+        parts.append(("pool-level-schedules-<=2-deviations-5-small-configs-second-deviation-at-every-3rd-step", PC.sweep(SMALL, 2, thin=3), False))
     return parts
 
 
